@@ -117,6 +117,11 @@ def one_mode(repo: Repo, rep):
     rep.floor("R-ONE-MODE", "format_code call sites", len(callers), 3)
     for cf, c in callers:
         p = c.args[1] if len(c.args) > 1 else next((k.value for k in c.keywords if k.arg == "filename"), None)
+        if isinstance(p, ast.Name):
+            ccfg = cfg_of(cf)
+            cn = ccfg.nodes_containing(c)
+            if cn:
+                p = resolve_alias(ccfg, cn[0], p)
         t = norm(p) if p is not None else ""
         if p is not None and ("self.filename" in t or "self._source.filename" in t):
             rep.ok("R-ONE-MODE", cf, c, f"path of the edited file: {t}")
